@@ -331,7 +331,7 @@ pub fn spec() -> Spec<Case> {
         id: "C10",
         level: "exploration",
         rule: "one bare remote and 2-3 clones (wrapper mode); a schedule of 6-30 steps (clone i, action) with action in {AI commit, human commit, switch to the shared branch / own branch, push [branch | --all], fetch, pull [--rebase]}; clones edit their own files so branches never conflict textually, but pushes can be non-fast-forward for the branch and for the notes ref, and first-time syncs happen in both directions; then the closing phase the property names: every clone pushes (rejected branches are reconciled with pull --rebase), then every clone fetches. A ledger commit -> (author clone, note text) is kept from each clone right after it creates commits. Safety after every step in every repository: the set of annotated commits does not shrink, every note parses and records its own commit as base, and equals the ledger entry. Convergence at the end: the remote and every clone hold, for every ledger commit they have, exactly the ledger note. non-trivial = the schedule contains a notes push that was non-fast-forward when it ran, or a first-time sync; distinct by case hash".into(),
-        cases_quick: 70,
+        cases_quick: 126,
         cases_thorough: 1500,
         shrink_iters: 40,
         workers: 14,
